@@ -109,7 +109,13 @@ def _observe(I, o):
             return None
         return repr(v)
 
-    if lv:
+    if lv and ld:
+        # a pinned CA no longer restricts trust when the platform store is loaded as well
+        got["trust"] = ("locations+default", src(lv[0].kwargs.get("cafile", lv[0].args[0] if lv[0].args else None)),
+                        src(lv[0].kwargs.get("capath", lv[0].args[1] if len(lv[0].args) > 1 else None)))
+    elif len(lv) > 1 or len(ld) > 1:
+        got["trust"] = ("repeated", len(lv), len(ld))
+    elif lv:
         got["trust"] = ("locations", src(lv[0].kwargs.get("cafile", lv[0].args[0] if lv[0].args else None)),
                         src(lv[0].kwargs.get("capath", lv[0].args[1] if len(lv[0].args) > 1 else None)))
     elif ld:
@@ -223,8 +229,8 @@ def r2(ctx):
                f"{'wss' if bad[0] else 'ws'} target: {len([e for e in bad[1].effects if e.name == '_ssl_socket'])} TLS wraps, returns {bad[1].value!r}",
                ctx.index.loc(ctx.index.func("_http:connect").node), {"path": path_text(bad[1])} if bad else None)
     # HAVE_SSL false => refuse, never silently plain
-    I2, outs2 = connect_paths(ctx, "none")
-    ctx.ob("_http:connect:no-silent-downgrade", all(o.kind == "return" or o.kind == "raise" for o in outs2), "every path returns a socket or raises", "")
+    from .c18 import no_tls_refused
+    no_tls_refused(ctx)
 
 
 @rule("R-C11-3", min_instances=2, title="order: proxy tunnel (clear text CONNECT) precedes the TLS wrap, nothing is written between wrap and return; defaults first, caller options second")
